@@ -69,7 +69,7 @@ func (ch *Checker) balance(a *model.Assertion, bal *model.Balance) error {
 	if ch.NoCheck {
 		return nil
 	}
-	if qty, ok := ch.quantities[position]; !ok || !qty.Equal(bal.Quantity) {
+	if qty := ch.quantities[position]; !qty.Equal(bal.Quantity) {
 		return Error{Directive: a, Msg: fmt.Sprintf("failed assertion: %s has position: %s %s", position.Account.Name(), qty, position.Commodity.Name())}
 	}
 	return nil
